@@ -525,7 +525,7 @@ func main() {
 	}
 	params := family(c)
 	bound := harness.Pick(c, 2, 3)
-	for i, r := range harness.ExploreBatch("relay", params, bound, harness.Pick(c, 20*time.Second, 20*time.Minute), true) {
+	for i, r := range harness.ExploreBatch("relay", params, bound, harness.Pick(c, 20*time.Second, 2*time.Minute), true) {
 		if i%19 == 0 {
 			c.Sample(map[string]any{"scenario": r.Param, "executions": r.Stats.Execs, "observations": len(r.Stats.Observations), "bound": r.Stats.BoundCompleted})
 		}
